@@ -36,13 +36,21 @@ type poolStep struct {
 	Kind   string // "submit" | "taskend"
 	Sub    int
 	Task   int
-	Before int // events logged before this step
+	Before int // position of this step in the expected history: every task event before it must have been observed
+}
+
+type evKey struct {
+	ev   string
+	task int
 }
 
 type poolRun struct {
 	cfg      PoolCfg
 	mu       sync.Mutex
 	events   []Event
+	seen     map[evKey]bool // task events observed so far
+	expKeys  []evKey        // task events of the expected history, in order (zero value: other event)
+	verified int            // expKeys[0:verified] have all been observed
 	gids     map[int64]int
 	parked   map[int]chan struct{} // task -> gate
 	subGate  []chan struct{}       // per submitter: permission for the next Submit
@@ -55,9 +63,28 @@ type poolRun struct {
 	nStarted int
 }
 
+func (p *poolRun) noteLocked(e Event) {
+	if t, ok := e["task"].(int); ok {
+		p.seen[evKey{e["ev"].(string), t}] = true
+	}
+}
+
+// observedUpTo reports whether every task event among the first n expected events has been observed
+func (p *poolRun) observedUpToLocked(n int) bool {
+	for p.verified < n && p.verified < len(p.expKeys) {
+		k := p.expKeys[p.verified]
+		if k.ev != "" && !p.seen[k] {
+			return false
+		}
+		p.verified++
+	}
+	return true
+}
+
 func (p *poolRun) log(e Event) {
 	p.mu.Lock()
 	p.events = append(p.events, e)
+	p.noteLocked(e)
 	p.mu.Unlock()
 	select {
 	case p.notify <- struct{}{}:
@@ -85,8 +112,8 @@ func poolWorkersAlive() int {
 	return strings.Count(string(buf[:n]), "flyt.(*WorkerPool).worker")
 }
 
-func runPoolScenario(cfg PoolCfg, steps []poolStep, seed int64) []Event {
-	p := &poolRun{cfg: cfg, gids: map[int64]int{}, parked: map[int]chan struct{}{}, notify: make(chan struct{}, 1),
+func runPoolScenario(cfg PoolCfg, steps []poolStep, expKeys []evKey, seed int64) []Event {
+	p := &poolRun{cfg: cfg, seen: map[evKey]bool{}, expKeys: expKeys, gids: map[int64]int{}, parked: map[int]chan struct{}{}, notify: make(chan struct{}, 1),
 		done: make(chan struct{}), rng: rand.New(rand.NewSource(seed)), barrier: make(chan struct{})}
 	nw := cfg.W
 	if nw <= 0 {
@@ -115,6 +142,7 @@ func runPoolScenario(cfg PoolCfg, steps []poolStep, seed int64) []Event {
 			var ch chan struct{}
 			p.mu.Lock()
 			p.events = append(p.events, Event{"ev": "taskstart", "task": t, "gid": g})
+			p.seen[evKey{"taskstart", t}] = true
 			p.nStarted++
 			started := p.nStarted
 			if useGates {
@@ -179,7 +207,7 @@ func runPoolScenario(cfg PoolCfg, steps []poolStep, seed int64) []Event {
 			wait:
 				for {
 					p.mu.Lock()
-					ready := len(p.events) >= st.Before
+					ready := p.observedUpToLocked(st.Before)
 					var ch chan struct{}
 					if st.Kind == "taskend" {
 						ch = p.parked[st.Task]
@@ -319,10 +347,15 @@ func runPoolScenario(cfg PoolCfg, steps []poolStep, seed int64) []Event {
 	return append([]Event{}, p.events...)
 }
 
-func poolStepsFromHistory(h []any) []poolStep {
+func poolStepsFromHistory(h []any) ([]poolStep, []evKey) {
 	var steps []poolStep
+	keys := make([]evKey, len(h))
 	for i, ev := range h {
 		e := asMap(ev)
+		switch asStr(e["ev"]) {
+		case "submit", "submitret", "taskstart", "taskend":
+			keys[i] = evKey{asStr(e["ev"]), asInt(e["task"])}
+		}
 		switch asStr(e["ev"]) {
 		case "submit":
 			steps = append(steps, poolStep{Kind: "submit", Sub: asInt(e["sub"]), Task: asInt(e["task"]), Before: i})
@@ -330,7 +363,7 @@ func poolStepsFromHistory(h []any) []poolStep {
 			steps = append(steps, poolStep{Kind: "taskend", Task: asInt(e["task"]), Before: i})
 		}
 	}
-	return steps
+	return steps, keys
 }
 
 func init() {
@@ -345,11 +378,12 @@ func init() {
 				cfg := parsePoolCfg(asMap(line["cfg"]))
 				var exp []any
 				var steps []poolStep
+				var keys []evKey
 				if asStr(line["src"]) == "tlc" {
 					exp = asList(line["exp"])
-					steps = poolStepsFromHistory(exp)
+					steps, keys = poolStepsFromHistory(exp)
 				}
-				evs := runPoolScenario(cfg, steps, seed)
+				evs := runPoolScenario(cfg, steps, keys, seed)
 				o.WriteScenario(asInt(line["scn"]), "pool", asStr(line["src"]), cfg.toJSON(), exp, evs)
 			}
 			return
@@ -367,7 +401,8 @@ func init() {
 				cfg := parsePoolCfg(asMap(line["cfg"]))
 				cfg.Sched = "script"
 				exp := asList(line["h"])
-				evs := runPoolScenario(cfg, poolStepsFromHistory(exp), seed)
+				steps, keys := poolStepsFromHistory(exp)
+				evs := runPoolScenario(cfg, steps, keys, seed)
 				id++
 				o.WriteScenario(id, "pool", "tlc", cfg.toJSON(), exp, evs)
 			}
@@ -383,6 +418,9 @@ func init() {
 				case "big": // far beyond the 2*workers queue
 					cfg.W = r.Intn(5) - 1
 					cfg.Per = 20 + r.Intn(105)
+					if cfg.Per*cfg.S*cfg.Rounds > 500 {
+						cfg.Per = 500 / (cfg.S * cfg.Rounds)
+					}
 					cfg.Sched = "free"
 				case "barrier":
 					cfg.W = 1 + r.Intn(16)
@@ -394,7 +432,7 @@ func init() {
 					cfg.W = r.Intn(5) - 1
 					cfg.Per = r.Intn(5)
 				}
-				evs := runPoolScenario(cfg, nil, r.Int63())
+				evs := runPoolScenario(cfg, nil, nil, r.Int63())
 				id++
 				o.WriteScenario(id, "pool", "gen:"+mode, cfg.toJSON(), nil, evs)
 			}
